@@ -44,7 +44,22 @@ func init() {
 					return
 				}
 				sts := receiverStores(fn)
-				R.decide("C09.a", kWitUpdate+":stores", "stores through the receiver were found (>= 4)", len(sts) >= 4, fmt.Sprintf("%d", len(sts)), P.Pos(fn.Pos()))
+				// a helper of the package that is handed the receiver and writes through it is a store site as well
+				var helperWrites []*ssa.Call
+				for _, c := range callsIn(fn) {
+					call, isC := c.(*ssa.Call)
+					if !isC || len(callArgs(call)) == 0 || callArgs(call)[0] != ssa.Value(fn.Params[0]) {
+						continue
+					}
+					if g := call.Call.StaticCallee(); g != nil && g != fn && inModuleFn(g) && g.Blocks != nil && len(receiverStores(g)) > 0 {
+						helperWrites = append(helperWrites, call)
+					}
+				}
+				R.decide("C09.a", kWitUpdate+":stores", "stores through the receiver were found (>= 4, counting calls of helpers that write through it)", len(sts)+len(helperWrites) >= 4, fmt.Sprintf("%d stores, %d helper calls", len(sts), len(helperWrites)), P.Pos(fn.Pos()))
+				for _, call := range helperWrites {
+					path := errorReachableFrom(P, fn, call, 0)
+					R.decide("C09.a", kWitUpdate+":store-in("+calleeName(call)+")@"+fmt.Sprintf("b%d", call.Block().Index), "no error return is reachable after this call, which writes to the witness", path == "", "error return reachable: "+path, P.Pos(call.Pos()))
+				}
 				for _, st := range sts {
 					path := errorReachableFrom(P, fn, st, 0)
 					R.decide("C09.a", kWitUpdate+":store("+desc(st.Addr)+")@"+blockRole(st), "no error return is reachable after this store to the witness", path == "", "error return reachable: "+path, P.Pos(st.Pos()))
